@@ -270,10 +270,12 @@ def run_case(g, idx, res, workdir, with_design):
         res["configs_compared"] = res.get("configs_compared", 0) + 1
         # rotations are written in degrees and held in radians: deg -> rad -> deg -> rad may move the last bit (one ulp), which is
         # rounding of the unit conversion, not a different configuration
-        for st in (st1, st2):
-            for kk in ("min_rotation", "max_rotation"):
-                if isinstance(st["geometry"].get(kk), float):
-                    st["geometry"][kk] = float(f"{st['geometry'][kk]:.13e}")
+        # (compared with a relative tolerance of 4 ulp; an earlier version rounded both to 14 digits, which flagged a pair that straddled
+        #  a rounding boundary: ...101 vs ...102 - thorough tier, notes/findings_log.md)
+        for kk in ("min_rotation", "max_rotation"):
+            a_, b_ = st1["geometry"].get(kk), st2["geometry"].get(kk)
+            if isinstance(a_, float) and isinstance(b_, float) and abs(a_ - b_) <= 9e-16 * max(abs(a_), abs(b_)):
+                st2["geometry"][kk] = a_
         if st1 != st2:
             diffs = [f"{k}: {str(st1[k])[:60]} -> {str(st2[k])[:60]}" for k in st1 if st1[k] != st2[k]]
             bad("loaded-configuration-differs-from-api-configuration:" + [k for k in st1 if st1[k] != st2[k]][0], f"{method}/{pipe}: " + "; ".join(diffs[:3]))
